@@ -110,6 +110,7 @@ func genHistOpts(c *sim.Case) histOpts {
 		Logout:      sim.Weighted(c, "logout", 1, 3) == 1,
 		Discovery:   sim.Weighted(c, "discovery", 4, 1) == 1,
 	}}
+	ho.o.CookiePrefix = pfx(c, "cookie-prefix")
 	ho.idTTL, _ = time.ParseDuration(sim.PickStr(c, "idttl", "60s", "600s", "3600s"))
 	ho.expIn = []int{0, 30, 300, 7200}[sim.Pick(c, "expires_in", 4)]
 	ho.noRT = sim.Weighted(c, "no-refresh-token", 3, 1) == 1
@@ -137,8 +138,8 @@ func (ho histOpts) build(c *sim.Case, mons ...monitor) *H {
 }
 
 func (ho histOpts) String() string {
-	return fmt.Sprintf("store=%s forwardAT=%v logout=%v discovery=%v idTTL=%v expires_in=%d noRefreshToken=%v faults=%v",
-		ho.o.Store, ho.o.AccessToken, ho.o.Logout, ho.o.Discovery, ho.idTTL, ho.expIn, ho.noRT, ho.faults)
+	return fmt.Sprintf("store=%s forwardAT=%v logout=%v discovery=%v prefix=%q abs=%v pkce-methods=%v idTTL=%v expires_in=%d noRefreshToken=%v faults=%v",
+		ho.o.Store, ho.o.AccessToken, ho.o.Logout, ho.o.Discovery, ho.o.CookiePrefix, ho.o.Abs, ho.methods, ho.idTTL, ho.expIn, ho.noRT, ho.faults)
 }
 
 // runWithFaults executes ops once cleanly (counting interception points), then again with a drawn fault plan.
